@@ -2,14 +2,14 @@
    H2 = H12 /\ FI is kept by, and makes total, every operation of covered_step2:
      Op1 o                 all 26 operations of `op` (oracle alphabet run_opF)
      OpSort / OpSortModel  agent-c14: Core, RE, RV give SpecKids, SpecKids makes Element::sort total; the result is world_rel
-     OpSetVersion f v      typed worlds only (op2_wfh: TypedU, agent-c17) — see Tree/NoPanicProofsCompatEx.v for the panic otherwise
-     OpCheckCompat f v     the same; read-only
+     OpSetVersion f v      Tree/NoPanicProofsCompat.v (every H2 world since the fix 7fd71e4 of the mask lookup; before it the call
+     OpCheckCompat f v     panicked after a type-keeping move, Tree/NoPanicProofsCompatEx.v); check is read-only
      OpSerializeFile f     Tree/NoPanicProofsSerFile.v;  OpSerializeElem h  Tree/NoPanicProofsSer.v (read-only)
    PENDING as steps of a history (covered_step2 = false): OpDuplicate, OpLoad. *)
 From Coq Require Import Lia PeanoNat.
 From AV Require Import Base.Bytes Base.Outcome Hash.HashModel Spec.SpecOps Xml.TablesOk Tree.Heap Tree.Ops Tree.Script Tree.Script2 Tree.Inv.
 From AV Require Import Tree.InvProofsBase Tree.InvProofs Tree.Sort Tree.SortProofsOrder Tree.SortProofsHeap Tree.SortProofsMain Tree.SortProofsCore
-  Tree.SortProofsReadyE Tree.SortProofsReadyV Tree.SortProofsReady Tree.IndexProofsNodeInv Tree.Compat Tree.CompatTyped Tree.CompatHist1
+  Tree.SortProofsReadyE Tree.SortProofsReadyV Tree.SortProofsReady Tree.IndexProofsNodeInv Tree.Compat Tree.CompatHist1
   Tree.OrdFiles Tree.OrdHist Tree.Serialize.
 From AV Require Import Tree.NoPanic Tree.NoPanicProofsBase Tree.NoPanicProofsCopy2 Tree.NoPanicFloat Tree.NoPanicProofsFloat Tree.NoPanicProofsHist
   Tree.NoPanicProofsSer Tree.NoPanicProofsOp2 Tree.NoPanicProofsOp2Inv Tree.NoPanicProofsFiles Tree.NoPanicProofsSerFile Tree.NoPanicProofsCompat.
@@ -22,15 +22,14 @@ Definition covered_step2 (o : op2) : bool :=
 Lemma coverage_step2 o : covered_step2 o = match o with OpDuplicate _ | OpLoad _ _ _ _ => false | _ => true end.
 Proof. reflexivity. Qed.
 
-(* the client side of one call inside a history; the world condition TypedU of the two compatibility calls is agent-c17's
-   invariant of histories without type-changing moves / copies (C17_typed_histories) *)
-Definition op2_wfh (T : tables) (tab_el tab_en : nametab) (w : world) (o : op2) : Prop :=
+(* the client side of one call inside a history *)
+Definition op2_wfh (tab_el tab_en : nametab) (w : world) (o : op2) : Prop :=
   match o with
   | Op1 o1 => op_wf tab_el tab_en w o1 /\ op_wfv o1 /\ SizeOk w
   | OpSort h | OpSerializeElem h => h < w_next w
   | OpSortModel m => m < N.of_nat (List.length (w_models w))
-  | OpSetVersion f v => f < N.of_nat (List.length (w_files w)) /\ ver_ok v /\ TypedU T w
-  | OpCheckCompat f v => f < N.of_nat (List.length (w_files w)) /\ TypedU T w
+  | OpSetVersion f v => f < N.of_nat (List.length (w_files w)) /\ ver_ok v
+  | OpCheckCompat f v => f < N.of_nat (List.length (w_files w))
   | OpSerializeFile f => f < N.of_nat (List.length (w_files w))
   | OpDuplicate _ | OpLoad _ _ _ _ => False
   end.
@@ -55,7 +54,6 @@ Hypothesis TKr : forall ty cs v ver, is_ref T ty = Val true -> chardata_spec T t
   check_value check_fn v cs ver = Val true -> exists s, v = DString s.
 Hypothesis RootTy : forall ty, et_new T (autosar_element T) = Val ty -> plainty T ty.
 Hypothesis HM : MaskOK T.
-Hypothesis HP : PairOK T.
 
 Notation TOK := (ok12_tables T OK12) (only parsing).
 Notation H12 := (H12 T tab_el tab_at tab_en).
@@ -64,7 +62,7 @@ Notation run := (Inv.run T tab_el tab_en check_fn LATEST root_attrs).
 Notation runF := (run_opF T tab_el tab_en check_fn LATEST root_attrs fmt).
 Notation run2F := (run_op2F T tab_el tab_at tab_en check_fn float_parse fmt LATEST name_index name_definition_ref
                             attr_schema_location root_attrs).
-Notation op2_wfh' := (op2_wfh T tab_el tab_en).
+Notation op2_wfh' := (op2_wfh tab_el tab_en).
 
 (* ---------- FI over the oracle alphabet ---------- *)
 Lemma FI_stepF o w r w' : FI w -> op_wf tab_el tab_en w o -> op_wfv o -> runF o w = Val (r, w') -> FI w'.
@@ -148,7 +146,7 @@ Proof.
   - apply wmap_inv in H as (r0 & H & _). unfold m_sort in H.
     apply (m_sort_frame T tab_el tab_at tab_en name_index name_definition_ref isort_poly StableSort_isort) in H as (_ & WR).
     split; [exact (H12_world_rel T tab_el tab_at tab_en w w' WR I)|exact (FI_world_rel w w' WR F)].
-  - apply wmap_inv in H as (r0 & H & _). exact (H2_set_version f v w r0 w' (proj1 (proj2 WF)) H (conj I F)).
+  - apply wmap_inv in H as (r0 & H & _). exact (H2_set_version f v w r0 w' (proj2 WF) H (conj I F)).
   - apply wbind_inv in H as [((errs & mask) & w1 & E & H)|(e & E & ->)].
     + apply wret_inv in H as (_ & ->). unfold f_check_version_compatibility in E. destruct (f_check T w f v); inversion E; subst; exact (conj I F).
     + unfold f_check_version_compatibility in E. destruct (f_check T w f v); inversion E; subst; exact (conj I F).
@@ -170,8 +168,8 @@ Proof.
       destruct (c_roots w C _ _ Hr) as (n & Hn & _). apply (c_alloc w C). exists n. exact Hn. }
     destruct (np_e_sort w (m_root x) I Lr) as (w' & E).
     eapply runs_bind; [unfold m_sort, m_sort_with, wbind at 1, get_model; rewrite Hx; exact E|]. intros; apply runs_ret.
-  - destruct WF as (Lf & _ & TU). eapply runs_then; [exact (np_f_set_version T tab_el tab_at tab_en OK12 HP w f v I F TU Lf)|]. intros; apply runs_ret.
-  - destruct WF as (Lf & TU). eapply runs_then; [exact (np_f_check_version_compatibility T tab_el tab_at tab_en OK12 HP w f v I F TU Lf)|].
+  - destruct WF as (Lf & _). eapply runs_then; [exact (np_f_set_version T tab_el tab_at tab_en OK12 w f v I F Lf)|]. intros; apply runs_ret.
+  - eapply runs_then; [exact (np_f_check_version_compatibility T tab_el tab_at tab_en OK12 w f v I F WF)|].
     intros (errs & mask) w1. apply runs_ret.
   - eapply runs_then; [exact (np_f_serialize T tab_el tab_at tab_en check_fn LATEST root_attrs fmt attr_schema_location OK12 CHECK EnumsOK AttrsOK w f (conj I F) WF)|].
     intros; apply runs_ret.
